@@ -206,21 +206,31 @@ def decodesTo (path pp : Bytes) : Bool :=
   | some p => moduloSlash path p || (['.', '/'].isPrefixOf p && moduloSlash path (p.drop 2))
   | none => false
 
+/-- a `Location` value is acceptable for this request when `pre` is what may precede the path -/
+def locOKWith (pre : Bytes) (r : Req) (loc : Bytes) : Bool :=
+  pre.isPrefixOf loc &&
+  startOK pre (loc.drop pre.length) &&
+  cleanPath (pathPart (loc.drop pre.length)) &&
+  decodesTo r.path (pathPart (loc.drop pre.length))
+
+def specOKWith (pre : Bytes) (r : Req) (o : Obs) : Bool :=
+  match o.loc with
+  | none => o.status != 308
+  | some loc => o.status == 308 && !o.ran && locOKWith pre r loc
+
+/-- what may precede the path of a `Location`: the request's own `scheme://host` — and only when the request target
+    HAS a host. A scheme alone (`http:///evil.com/x`, `http:/evil.com/x`: net/http accepts such request targets) is not
+    the request's origin: every client reads what follows it as another host. -/
+def ownPrefix (r : Req) : Bytes := if r.hostSet then r.pre else []
+
 /-- a `Location` value is acceptable for this request -/
-def locOK (r : Req) (loc : Bytes) : Bool :=
-  r.pre.isPrefixOf loc &&
-  startOK r.pre (loc.drop r.pre.length) &&
-  cleanPath (pathPart (loc.drop r.pre.length)) &&
-  decodesTo r.path (pathPart (loc.drop r.pre.length))
+def locOK (r : Req) (loc : Bytes) : Bool := locOKWith (ownPrefix r) r loc
 
 /-- * a redirect (308 with a `Location`) goes only to the request's own path with the final slash
       added or removed (compared after percent-decoding), the handler does not run,
     * and the `Location` is either a reference without scheme and host that no client can read as
-      naming another host, or the request's own `scheme://host` followed by a path. -/
-def specOK (r : Req) (o : Obs) : Bool :=
-  match o.loc with
-  | none => o.status != 308
-  | some loc => o.status == 308 && !o.ran && locOK r loc
+      naming another host, or the request's own `scheme://host` (a request target with a host) followed by a path. -/
+def specOK (r : Req) (o : Obs) : Bool := specOKWith (ownPrefix r) r o
 
 end Slash
 
